@@ -121,6 +121,10 @@ pub enum Pred {
     /// accept everything, and panic at the k-th question (the caller catches it; slice_some takes
     /// `&self`, so nothing may have changed, and later slices must be right)
     PanicAt(u8),
+    /// re-entrant use: before it answers, the predicate itself takes a slice (from the target of
+    /// the edge it is asked about, on the same graph) and drops it; with the bit set it then
+    /// rejects edges with (from + to) % 3 == 0, otherwise it accepts everything
+    Nested(bool),
 }
 
 /// Out-of-contract calls (C07 profile only).
